@@ -288,6 +288,12 @@ def handleMachine (st : DState) (ws : List String) : Option (DState × String) :
     | .ok (a, m) => pure ({ st with m := m }, "ok " ++ toHex a)
     | .err => pure ({ st with poisoned := true }, "err")
     | .panic => pure (st, "panic")
+  | ["cpreg", dst, src, delta] => do
+    let d ← findIdx? gprNames64 dst 16
+    let sr ← findIdx? gprNames64 src 16
+    let delta ← parseHex? delta
+    let v := st.m.regs.get sr + BitVec.ofNat 64 delta
+    pure ({ st with m := { st.m with regs := st.m.regs.set d v } }, "ok " ++ toHex v.toNat)
   | ["ldreg", r, a] => do
     let i ← findIdx? gprNames64 r 16
     let a ← parseHex? a
